@@ -55,6 +55,12 @@ package pos
 //@ func (*Validators).Exists
 //@   requires vv != nil
 //@   ensures  result == has(vv.values, id)
+//@ func (*Validators).SortedIDs
+//@   requires vv != nil
+//@   ensures  result == vv.cache.ids
+//@ func (*Validators).IDs
+//@   requires vv != nil
+//@   ensures  result == vv.cache.ids
 //@ func (*Validators).GetIdx
 //@   requires vv != nil
 //@   ensures  result == vv.cache.indexes[id]
